@@ -91,6 +91,13 @@ def run(ck):
     ck.run_rule(d1_d2_d3)
     from .c01 import g4_legality_filter
     ck.run_rule(g4_legality_filter)
+    # `position fen ..` is the FEN reader: the fields it stores and what it may refuse (C11's F5, F7/F8); a root searched with a window that
+    # excludes mate scores stores no entry when every move is mated and the `go` gets no bestmove (C06's R8-R10)
+    from .c11 import f5_field_order, f7_f8_counters_and_rejections
+    ck.run_rule(f5_field_order)
+    ck.run_rule(f7_f8_counters_and_rejections)
+    from .c06 import r8_r10_driver
+    ck.run_rule(r8_r10_driver)
 
 
 def _shape(ck, rule):
